@@ -14,13 +14,15 @@ CHECKS = {
             "byte string over the sync-dense byte alphabet, each with every placement of <= k read "
             "faults, is executed on the real RTCMReader through a recording/fault-injecting stream "
             "double; every returned pair is checked against the source bytes and a reference frame "
-            "test; states = distinct (cursor, reader attribute snapshot) between read() calls",
+            "test; plus histories of 2-3 socket connections in one process (each reader's pairs must come from "
+            "its own stream) and all depth-bounded mixes of read()/next()/for/iter() on seekable streams; "
+            "states = distinct (cursor, reader attribute snapshot) between read() calls",
             "stream items and byte alphabet are representatives; fault count bounded"),
     "C02": ("model_checking", "E1",
             "exhaustive enumeration of well-formed item sequences (depth-bounded) and full length / "
             "byte-value sweeps on the real reader over file, buffered and socket streams",
-            "all sequences of well-formed items up to the depth bound, every payload length 0..1023 "
-            "and every inert byte between two frames, over BytesIO, BufferedReader and socket-backed "
+            "all sequences of well-formed items up to the depth bound, every payload length 0..1023, "
+            "every implemented type at every alphabet shape and every inert byte between two frames, over BytesIO, BufferedReader and socket-backed "
             "streams; yielded frames compared with the generator's own list",
             "item representatives; depth bound"),
     "C03": ("exploration", "E1+refmodel",
@@ -34,25 +36,28 @@ CHECKS = {
             "exhaustive enumeration of headers x lengths x fills, structure-aware mutations and "
             "hostile streams x error modes; oracle = exception class and bounded call count",
             "all 4096 numbers x short lengths x fills, all truncations / spliced bodies of corpus "
-            "payloads and every hostile stream of the C01 alphabet under all modes; only library "
+            "payloads and every hostile stream of the C01 alphabet under all modes, also over a real "
+            "socket subclass (plain and chunked, peer closing at every byte, receive faults); only library "
             "exceptions may escape, ignore/log modes never raise, read-call count bounded",
             "termination is decided by a deterministic bound on stream calls per item"),
     "C05": ("fault_enumeration", "E1",
             "exhaustive enumeration of damage patterns (every single bit, pairs, bursts) x damaged "
             "subsets x error modes on the real reader",
             "streams of k distinct frames x every subset damaged x every single-bit position behind "
-            "the header (+ pair / triple / burst families) x {ignore, log, raise} x {handler, logger}",
+            "the header (+ pair / triple / burst families) x {ignore, log, raise} x {handler, logger} x host logging "
+            "configurations",
             "multi-bit patterns are families; frame count <= 4"),
     "C06": ("exploration", "refmodel",
             "exhaustive enumeration of every whole-byte truncation of every reference payload",
-            "every identity x shape x {zeros, ones, fingerprint} x every cut length from full-1 down "
+            "every identity x shape x {zeros, ones, fingerprint, NUL text} x every cut length from full-1 down "
             "to the identity header; the real constructor must fail",
             "complete payloads come from the reference encoder"),
     "C07": ("exploration", "refmodel",
             "exhaustive enumeration over payload length 2..1023 and the corpus; independent framing",
-            "every length 2..1023 x 3 fills x 2 unknown numbers, all corpus payloads and known types "
-            "steered to the 8/9/10-bit length boundaries: serialize == independently built frame, "
-            "parse inverse, repr evaluable",
+            "every length 2..1023 x 4 fills x 2 unknown numbers, all corpus payloads, known types "
+            "steered to the 8/9/10-bit length boundaries and all MSM types with format-special spare "
+            "bytes, under label options 1/2/0: serialize == independently built frame, parse inverse, "
+            "repr evaluable",
             "payload contents per length are three fills"),
     "C08": ("exploration", "E1",
             "exhaustive enumeration of messages / error patterns within stated families against two "
@@ -61,7 +66,8 @@ CHECKS = {
             "2^24 register states x input byte (every 4-byte message with a given last byte), every "
             "(position, byte) on zero/one backgrounds, every single-bit message per length; parse "
             "rejects every 1-bit error at every position for every frame length, all 2-bit errors on "
-            "short frames, 3-bit, odd and burst families",
+            "short frames, 3-bit, odd and burst families, also after the same damaged bytes were parsed "
+            "with validation off",
             "the universal detection guarantee is a theorem about the generator; enumerated families "
             "decide the implementation's agreement with it on those inputs"),
     "C09": ("exploration", "refmodel",
@@ -103,7 +109,8 @@ CHECKS = {
     "C14": ("exploration", "corpus",
             "exhaustive enumeration of (message, attribute name, value kind) and ordered pairs",
             "every corpus message x every instance attribute name (public, private), properties and "
-            "fresh names x value kinds; setattr must raise RTCMMessageError, snapshot unchanged",
+            "fresh names x value kinds, on messages obtained directly, from parser / file / socket readers "
+            "and through copy / deepcopy / pickle; setattr must raise RTCMMessageError, snapshot unchanged",
             "assignment = builtin setattr"),
     "C15": ("exploration", "E1",
             "bounded exhaustive enumeration of the 12-bit x 8-bit header space on the real code",
@@ -112,17 +119,21 @@ CHECKS = {
     "C16": ("exploration", "refmodel",
             "exhaustive enumeration of label options x MSM mask shapes x non-MSM corpus",
             "labelmsm in {0,1,2,True} x MSM shapes x all 49 types and every non-MSM corpus item, "
-            "directly and through a reader; only CELLSIG may differ; labels functional in signal ID",
+            "directly, through a reader and through copy / pickle; only CELLSIG may differ; labels "
+            "functional in signal ID",
             "mask shapes as C09"),
     "C17": ("model_checking", "E1",
             "exhaustive product of reader configurations x enumerated streams, differential oracle",
             "validate x parsed x labelmsm x quitonerror over all depth-bounded streams of good frames, "
-            "CRC-damaged frames (every trailer bit), NMEA, UBX; cursor positions identical",
+            "CRC-damaged frames (every trailer bit), NMEA, UBX, over a recording double, BytesIO and a "
+            "RawIOBase stream, alone and interleaved; cursor positions, attributes, string form and "
+            "serialised bytes identical",
             "stream depth bound"),
     "C18": ("exploration", "refmodel",
             "exhaustive enumeration of MSM shapes / 4076_201 (layers, degree, order) / other identities",
             "parse_msm and parse_4076_201 compared with indexed attributes for all MSM types x shapes "
-            "(incl. 128 cells) and all degree/order pairs; every other identity returns None",
+            "(incl. 128 cells) under label options 1,2,0,2,1 in turn and all degree/order pairs, results "
+            "modified by the caller between calls; every other identity returns None",
             "shapes as C09 plus 3-digit index shapes"),
     "C19": ("exploration", "refmodel",
             "exhaustive enumeration of the generated attribute-name set",
